@@ -23,6 +23,7 @@
 #include "LinAlg/UpperHessenbergQR.h"
 #include "LinAlg/TridiagEigen.h"
 #include "LinAlg/Lanczos.h"
+#include "Util/VerifHooks.h"
 
 namespace Spectra {
 
@@ -43,6 +44,9 @@ namespace Spectra {
 template <typename OpType, typename BOpType>
 class HermEigsBase
 {
+#ifdef SPECTRA_VERIF
+    friend struct ::SpectraVerifAccess;
+#endif
 private:
     using Scalar = typename OpType::Scalar;
     // The real part type of the matrix element, e.g.,
@@ -146,6 +150,7 @@ private:
         m_fac.factorize_from(k, m_ncv, m_nmatop);
 
         retrieve_ritzpair(selection);
+        SPECTRA_VERIF_OBSERVE("herm.restart", this);
     }
 
     // Calculates the number of converged Ritz values
